@@ -215,18 +215,6 @@ def nodes(e):
                         yield from nodes(t)
 
 
-def partial_in_known_region(e):
-    """the recorded finding: a partial application whose base is a named function item (shared, converted in place) or
-    itself a partial application, or whose fixed argument refers to a variable (evaluated late, in the caller's scope)"""
-    for n in nodes(e):
-        if n[0] == 'partial':
-            if n[1][0] == 'var' or has(n[1], 'partial'):
-                return True
-            if any(a is not None and has(a, 'var') for a in n[2]):
-                return True
-    return False
-
-
 FIXED = [
     # (for $i in (1, 2) return function() { $i }) ! .()
     ('bang', ('for', 0, ('lit', [1, 2]), ('lam', [], ('var', 0))), []),
@@ -333,11 +321,8 @@ def run(chk):
         want = (mo[0], [tuple(x) for x in mo[1]])
         bad = {f'{k[0]}#{k[1]}': v for k, v in outs.items() if v != want}
         if bad:
-            if partial_in_known_region(e):
-                chk.known('C16-partial-application', desc | {'impl': repr(next(iter(bad.values())))[:200], 'spec': repr(want)[:200]})
-            else:
-                chk.violation('impl-vs-spec', desc, {'impl': {k: repr(v)[:300] for k, v in bad.items()}, 'spec (reference semantics)': repr(want)[:300]})
-                chk.corr_fail.append((desc, bad, want))
+            chk.violation('impl-vs-spec', desc, {'impl': {k: repr(v)[:300] for k, v in bad.items()}, 'spec (reference semantics)': repr(want)[:300]})
+            chk.corr_fail.append((desc, bad, want))
         chk.nontrivial.add(text)
         if i % 41 == 0:
             chk.sample({'expr': text, 'reference': repr(want)[:200]})
@@ -424,6 +409,67 @@ def run(chk):
                 chk.violation('impl-vs-spec', desc, {'impl (input positions)': got, 'spec': want})
         if mo is not None and list(mo) != [-9]:
             chk.nontrivial.add(repr(('tsort', [t[0] for t in sq])))
+    # ---- partial application of named functions (static f(a, ?), dynamic f#n(a, ?), partial of a partial), items created in
+    # loops and called after the loop: every call must equal the direct call with the same arguments
+    # (C16_partial_application_binds_as_direct_call: the parameters are bound to the same values)
+    BUILTINS = [('concat', 3, ["'a'", "'b'", "'c'", "string($i)", "$s"]), ('substring', 3, ["'abcdefgh'", '2', '3', '$i', "$s"]),
+                ('substring-after', 2, ["'x1y2z3'", "string($i)", "'y'", '$s']), ('string-join', 2, ["('p', 'q', 'r')", "'-'", "string($i)", '$s']),
+                ('translate', 3, ["'abcabc'", "'ab'", "'xy'", '$s']), ('math:pow', 2, ['2', '3', '$i']), ('max', 1, ['(1, 5, 3)', '($i, 2)']),
+                ('subsequence', 3, ['(10, 20, 30, 40)', '2', '$i']), ('index-of', 2, ['(1, 2, 3, 2)', '2', '$i']),
+                ('xs:integer', 1, ["'12'", '$i']), ('contains', 2, ["'abc'", "'b'", '$s']), ('round', 2, ['12.345', '$i', '2'])]
+    pcases = []
+    for name, ar, pool in BUILTINS:
+        for _ in range(12 if chk.tier == "quick" else 60):
+            args = [rng.choice(pool) for _ in range(ar)]
+            slots = [rng.random() < 0.5 for _ in range(ar)]
+            if not any(slots):
+                slots[rng.randrange(ar)] = True
+            if all(slots) and ar > 1 and rng.random() < 0.7:
+                slots[rng.randrange(ar)] = False
+            pcases.append((name, ar, args, slots))
+    for name, ar, args, slots in pcases:
+        direct = f"{name}({', '.join(args)})"
+        call_args = ', '.join(a for a, sl in zip(args, slots) if sl)
+        part = ', '.join('?' if sl else a for a, sl in zip(args, slots))
+        forms = {'static': f"{name}({part})", 'dynamic': f"{name}#{ar}({part})"}
+        ph = [k for k, sl in enumerate(slots) if sl]
+        if len(ph) >= 2:
+            # partial of a partial: the first placeholder is filled by a second partial application
+            first = args[ph[0]]
+            forms['partial-of-partial'] = f"{name}({part})({', '.join([first] + ['?'] * (len(ph) - 1))})"
+        for form, pexpr in forms.items():
+            rest_args = call_args if form != 'partial-of-partial' else ', '.join(args[k] for k in ph[1:])
+            progs = {
+                'once': (f"for $i in 1 to 3, $s in ('u', 'v') return {pexpr}({rest_args})",
+                         f"for $i in 1 to 3, $s in ('u', 'v') return {direct}"),
+                # the items are created in the loop and called after it, in reverse order and twice
+                'after': (f"let $gs := (for $i in 1 to 3, $s in ('u', 'v') return function() {{ {pexpr} }}) return "
+                          f"(for $k in reverse(1 to 6) return (let $i := 9, $s := 'w' return $gs[$k]()({rest_args if '$' not in rest_args else 'SKIP'})))",
+                          f"let $ds := (for $i in 1 to 3, $s in ('u', 'v') return function() {{ {direct} }}) return "
+                          f"(for $k in reverse(1 to 6) return $ds[$k]())"),
+                'twice': (f"for $i in 1 to 2, $s in ('u') return (let $g := {pexpr} return ($g({rest_args}), $g({rest_args})))",
+                          f"for $i in 1 to 2, $s in ('u') return ({direct}, {direct})"),
+            }
+            for pk, (lhs, rhs) in progs.items():
+                if 'SKIP' in lhs:
+                    continue
+                chk.evaluations += 1
+                chk.count('partial-builtin:' + form)
+                desc = {'partial': lhs, 'direct': rhs}
+                res = []
+                for text in (lhs, rhs):
+                    try:
+                        r = select(None, text, parser=XPath31Parser, item=1, namespaces={'math': 'http://www.w3.org/2005/xpath-functions/math'})
+                        res.append(('ok', repr(r)))
+                    except ElementPathError as ex:
+                        res.append(('err', (ex.code or '').split(':')[-1]))
+                    except Exception as ex:
+                        res.append(('exc', repr(ex)[:200]))
+                if res[0] != res[1]:
+                    chk.corr_fail.append((desc, res[0], res[1]))
+                    chk.violation('partial-vs-direct', desc, {'partial application': res[0], 'direct call': res[1]})
+                elif res[0][0] == 'ok':
+                    chk.nontrivial.add(lhs)
     chk.rule = ('fixed corpus (closures in loops, closure factories, shadowing at call time, HOFs, stable sort, partial application) + seeded '
                 'typed random programs (depth <= 4) evaluated twice under the 3.1 and 3.0 parsers against C16.Model.eval; non-trivial = distinct program')
     chk.obligations.append({'name': 'correspondence:impl==reference semantics', 'ok': not chk.corr_fail,
